@@ -385,6 +385,9 @@ pub enum Freq {
     Dyadic(u8),
     /// j/n with j = 1 + idx(sel, n); only used where n*(j/n) == j exactly in f64 (see `exact`)
     Ratio(u16),
+    /// 0.9, the documented default of align and weed (0.9 n is either an exact integer, for n a multiple
+    /// of 10, or at least 0.1 away from one, so ceil() is immune to floating-point noise)
+    Point9,
 }
 
 impl Freq {
@@ -394,7 +397,9 @@ impl Freq {
             Freq::One => 1.0,
             Freq::Half(s) => ((1 + crate::gen::idx(*s, n)) as f64 - 0.5) / n as f64,
             Freq::Dyadic(m) => (*m as f64) / 8.0,
-            Freq::Ratio(s) => (1 + crate::gen::idx(*s, n)) as f64 / n as f64,
+            // j/n where that is safe (see `exact`), otherwise the noise-immune (j-0.5)/n with the same threshold
+            Freq::Ratio(s) => if self.exact(n) { (1 + crate::gen::idx(*s, n)) as f64 / n as f64 } else { ((1 + crate::gen::idx(*s, n)) as f64 - 0.5) / n as f64 },
+            Freq::Point9 => 0.9,
         }
     }
     /// ceil(f*n)
@@ -405,6 +410,7 @@ impl Freq {
             Freq::Half(s) => 1 + crate::gen::idx(*s, n),
             Freq::Dyadic(m) => (n * (*m as usize) + 7) / 8,
             Freq::Ratio(s) => 1 + crate::gen::idx(*s, n),
+            Freq::Point9 => (9 * n + 9) / 10,
         }
     }
     /// is f*n an exact integer (then floor == ceil, needed for `ska weed`)
@@ -412,6 +418,7 @@ impl Freq {
         match self {
             Freq::Zero | Freq::One => true,
             Freq::Half(_) => false,
+            Freq::Point9 => n % 10 == 0,
             Freq::Dyadic(m) => (n * (*m as usize)) % 8 == 0,
             Freq::Ratio(s) => {
                 let j = (1 + crate::gen::idx(*s, n)) as f64;
@@ -433,6 +440,9 @@ pub fn freq_strategy() -> proptest::strategy::BoxedStrategy<Freq> {
         2 => Just(Freq::One),
         5 => any::<u16>().prop_map(Freq::Half),
         3 => (1u8..8).prop_map(Freq::Dyadic),
+        2 => Just(Freq::Point9),
+        // j/n exactly on a threshold (only where n*(j/n) == j in the f64 arithmetic ska performs; else it acts as Half)
+        3 => any::<u16>().prop_map(Freq::Ratio),
     ]
     .boxed()
 }
